@@ -19,8 +19,8 @@ Qed.
 
 Section RemoveFirst.
 Variable gc : bool.
-Notation step := (step true gc).
-Notation run := (run true gc).
+Notation step := (step true true gc).
+Notation run := (run true true gc).
 
 (* the ids of a new bookkeeper are ids of live objects not yet in the tables; its module id is not the module id of any
    bookkeeper whose code can still run *)
@@ -104,7 +104,7 @@ Proof.
       * rewrite ?Hc in Hb. destruct Hb as [<-|[]]. apply add_ok.
       * apply add_keeps; [intros E; exact (proj2 (Hnew_sep q b Hb) (eq_sym E))|].
         apply remove_keeps.
-        -- intros E. exact (proj2 (Hnew_sep q b Hb) (eq_sym E)).
+        -- exact (proj2 (Hsep q b p ob Hb Hob Hq)).
         -- intros i Hi Hi'. exact (proj1 (Hsep q b p ob Hb Hob Hq) i Hi Hi').
         -- apply (entries_ok_ext s); [reflexivity|reflexivity|]. exact (Hok q b Hb).
     + apply Hvalid; [reflexivity|reflexivity|]. intros q b Hb. subst s0. cbn [valid] in Hb.
@@ -134,6 +134,42 @@ Proof.
   - exact (inv_ok s HI q b Hb).
   - destruct HF as [Hf HF]. cbn [model.BookHist.run fold_left] in *. exact (IH _ (step_inv s o HI Hf) HF q b Hb).
 Qed.
+
+(* ---- the module id is the id of one of the bookkeeper's own nodes (the registered copy of the tree): then "its module id is
+        not the module id of any bookkeeper whose code can still run" is no assumption any more, it follows from the ids *)
+Definition wf_bk (b : bk) : Prop := In (b_mid b) (b_ids b).
+Definition fresh_ids (s : st) (o : op) : Prop := (forall k, In k (b_ids (o_bk o)) -> gn s k = false) /\ wf_bk (o_bk o).
+Definition all_wf (s : st) : Prop := forall q b, In b (valid s q) -> wf_bk b.
+
+Lemma fresh_of_ids s o : Inv s -> all_wf s -> fresh_ids s o -> fresh s o.
+Proof.
+  intros HI HW [Hf Hw]. split; [exact Hf|]. intros q b Hb E.
+  pose proof (proj1 (inv_ok s HI q b Hb) (b_mid b) (HW q b Hb)) as H1. rewrite E in H1.
+  rewrite (Hf _ Hw) in H1. discriminate.
+Qed.
+Lemma step_all_wf s o : all_wf s -> wf_bk (o_bk o) -> all_wf (step s o).
+Proof.
+  intros HW Hw q b Hb. destruct o as [p k n]. cbn [o_bk] in Hw.
+  assert (Hv : valid (step s {| o_path := p; o_kind := k; o_bk := n |}) q =
+               if N.eqb q p then (if collects gc k then [n] else n :: valid s q) else valid s q).
+  { unfold model.BookHist.step. cbn [o_path o_kind o_bk]. destruct (cur s p); [destruct (collects gc k)|]; reflexivity. }
+  rewrite Hv in Hb. destruct (N.eqb q p); [|exact (HW q b Hb)].
+  destruct (collects gc k); [destruct Hb as [<-|[]]; exact Hw|destruct Hb as [<-|Hb]; [exact Hw|exact (HW q b Hb)]].
+Qed.
+Fixpoint hist_fresh_ids (ops : list op) (s : st) : Prop :=
+  match ops with [] => True | o :: ops' => fresh_ids s o /\ hist_fresh_ids ops' (step s o) end.
+Lemma hist_fresh_of_ids ops : forall s, Inv s -> all_wf s -> hist_fresh_ids ops s -> hist_fresh ops s.
+Proof.
+  induction ops as [|o ops IH]; intros s HI HW H; [exact I|]. destruct H as [Hf H].
+  pose proof (fresh_of_ids s o HI HW Hf) as F. split; [exact F|].
+  apply IH; [exact (step_inv s o HI F)|exact (step_all_wf s o HW (proj2 Hf))|exact H].
+Qed.
+Theorem history_entries_valid_ids ops : hist_fresh_ids ops st0 ->
+  forall q b, In b (valid (run ops st0) q) -> entries_ok (run ops st0) b.
+Proof.
+  intros H. apply (history_entries_valid ops st0 inv0). apply hist_fresh_of_ids; [exact inv0| |exact H].
+  intros q b [].
+Qed.
 End RemoveFirst.
 
 (* the other order (add the new bookkeeper, then remove the old one's keys from the line table of the NEW module id):
@@ -141,6 +177,14 @@ End RemoveFirst.
 Example remove_after_add_refuted :
   let b1 := {| b_mid := 1; b_ids := [10; 11]; b_lines := [(1, 11)] |}%N in
   let b2 := {| b_mid := 2; b_ids := [20; 21]; b_lines := [(1, 21)] |}%N in
-  let s := model.BookHist.run false true [ {| o_path := 0%N; o_kind := KModule; o_bk := b1 |}; {| o_path := 0%N; o_kind := KModule; o_bk := b2 |} ] st0 in
+  let s := model.BookHist.run false false true [ {| o_path := 0%N; o_kind := KModule; o_bk := b1 |}; {| o_path := 0%N; o_kind := KModule; o_bk := b2 |} ] st0 in
   valid s 0%N = [b2] /\ gl s 2%N 1%N = None.
+Proof. vm_compute. split; reflexivity. Qed.
+
+(* removal under the NEW module id (before dbf4257: ast_rewriter.py passed `module_id`): the line table of the replaced tree survives whole *)
+Example remove_new_mid_leaks :
+  let b1 := {| b_mid := 10; b_ids := [10; 11]; b_lines := [(1, 11)] |}%N in
+  let b2 := {| b_mid := 20; b_ids := [20; 21]; b_lines := [(2, 21)] |}%N in
+  let ops := [ {| o_path := 0%N; o_kind := KModule; o_bk := b1 |}; {| o_path := 0%N; o_kind := KModule; o_bk := b2 |} ] in
+  gl (model.BookHist.run true false true ops st0) 10%N 1%N = Some 11%N /\ gl (model.BookHist.run true true true ops st0) 10%N 1%N = None.
 Proof. vm_compute. split; reflexivity. Qed.
